@@ -59,6 +59,12 @@ func (x *Exec) call(st *State, fr *Frame, at ssa.Instruction, cc *ssa.CallCommon
 			st.meta = map[string]Val{}
 		}
 		st.meta["ret:"+name] = v
+		if x.wantsAfter(name) {
+			if st.retHeaps == nil {
+				st.retHeaps = map[string]map[string]Term{}
+			}
+			st.retHeaps[name] = copyHeap(st.heap)
+		}
 		origBind(v)
 	}
 	if st.meta == nil {
@@ -988,6 +994,18 @@ func (x *Exec) appendOp(st *State, fr *Frame, at ssa.Instruction, args []Val) Va
 	newLen := x.define(st, "alen", App(SInt, "+", sLen, addLen))
 	res := Val{T: App(SSlice, "mk-slice", base, IntLit(0), newLen, x.D.Fresh("acap", SInt)), Typ: s.Typ}
 	st.assume(App(SBool, "<=", newLen, App(SInt, "s.cap", res.T)))
+	// lemma for the spec builtins sum / sumfield: append keeps the old elements, so the sum over the
+	// old length is the same in the new row (an induction the solver cannot do; sound by definition)
+	if fns := x.sumFuns[sort]; len(fns) > 0 {
+		oldDefRow := x.define(st, "sumold", oldRow)
+		defer func() {
+			n2, as2 := elemArrName(sort)
+			newRow := Select(x.heapArr(st, n2, as2), base)
+			for _, fn := range sortedKeys(fns) {
+				st.assume(Eq(App(SInt, fn, newRow, IntLit(0), sLen), App(SInt, fn, oldDefRow, sOff, sLen)))
+			}
+		}()
+	}
 	// content: exact when the appended slice has a concrete small length
 	k := concreteInt(addLen)
 	if add.T.Sort == SSlice && k >= 0 && k <= 8 {
@@ -1331,6 +1349,9 @@ func staticCalleeName(cc *ssa.CallCommon) string {
 	if f := cc.StaticCallee(); f != nil {
 		return CanonName(f)
 	}
+	if b, ok := cc.Value.(*ssa.Builtin); ok {
+		return "builtin." + b.Name()
+	}
 	return ""
 }
 
@@ -1416,7 +1437,7 @@ func (x *Exec) checkContinuesAfter(st *State, fr *Frame, at ssa.Instruction) {
 func exprUsesPathBuiltins(e Expr) bool {
 	switch e := e.(type) {
 	case ECall:
-		if e.Fun == "ncalls" || e.Fun == "lastret" || e.Fun == "lastarg" || e.Fun == "local" {
+		if e.Fun == "ncalls" || e.Fun == "lastret" || e.Fun == "lastarg" || e.Fun == "local" || e.Fun == "after" {
 			return true
 		}
 		if e.Recv != nil && exprUsesPathBuiltins(e.Recv) {
@@ -1445,4 +1466,61 @@ func exprUsesPathBuiltins(e Expr) bool {
 		return exprUsesPathBuiltins(e.C) || exprUsesPathBuiltins(e.A) || exprUsesPathBuiltins(e.B)
 	}
 	return false
+}
+
+// wantsAfter: the contract under verification mentions after("pattern", …) with a pattern matching
+// this callee, so the heap at its return has to be remembered.
+func (x *Exec) wantsAfter(name string) bool {
+	if x.afterPats == nil {
+		x.afterPats = []string{}
+		if x.TopC != nil {
+			for _, cl := range x.TopC.Clauses {
+				collectAfterPats(cl.E, &x.afterPats)
+			}
+		}
+	}
+	for _, p := range x.afterPats {
+		if matchCallee(p, name) {
+			return true
+		}
+	}
+	return false
+}
+
+func collectAfterPats(e Expr, out *[]string) {
+	switch e := e.(type) {
+	case ECall:
+		if e.Fun == "after" && len(e.Args) == 2 {
+			if lit, ok := e.Args[0].(EStr); ok {
+				*out = append(*out, lit.V)
+			}
+		}
+		if e.Recv != nil {
+			collectAfterPats(e.Recv, out)
+		}
+		for _, a := range e.Args {
+			collectAfterPats(a, out)
+		}
+	case EUnary:
+		collectAfterPats(e.X, out)
+	case EBinary:
+		collectAfterPats(e.L, out)
+		collectAfterPats(e.R, out)
+	case ESel:
+		collectAfterPats(e.X, out)
+	case EIndex:
+		collectAfterPats(e.X, out)
+		collectAfterPats(e.I, out)
+	case EOld:
+		collectAfterPats(e.X, out)
+	case EQuant:
+		collectAfterPats(e.Body, out)
+	case ELet:
+		collectAfterPats(e.Val, out)
+		collectAfterPats(e.Body, out)
+	case EIte:
+		collectAfterPats(e.C, out)
+		collectAfterPats(e.A, out)
+		collectAfterPats(e.B, out)
+	}
 }
